@@ -1,4 +1,5 @@
 import ScrapliModel.Lemmas.Request
+import ScrapliModel.Lemmas.SelfClose
 /-!
 # C03 — NETCONF requests on the wire are correctly framed and carry the caller's content
 
@@ -206,6 +207,12 @@ ending in `/` — have been replaced by `<n a…/>`. Every other byte (elements 
 mismatched open/close pairs, already self-closed elements, text) is kept. -/
 theorem forceSelfClosing_spec (s : Bytes) : Rewrites s (forceSelfClosing s) :=
   scan_rewrites s.length s
+
+/-- **forceSelfClosing_idempotent.** Rewriting twice is rewriting once, for every byte string
+(holds for the repaired function only: the code as it is turns `<a  x></a> </a>` into
+`<a  x/> </a>` and then into `<a  x//>`). -/
+theorem forceSelfClosing_idempotent (s : Bytes) :
+    forceSelfClosing (forceSelfClosing s) = forceSelfClosing s := fsc_idem s
 
 /-- … and the rewrite does happen for an empty element that follows tag-free text -/
 theorem forceSelfClosing_closes (pre n a ws post : Bytes) (hpre : ∀ b ∈ pre, b ≠ LTc)
